@@ -58,9 +58,21 @@ def make_rule(name, k, tie_breaker, zero_indexed):
     raise ValueError(name)
 
 
-def profile_obj(P, dtype=np.int64):
+def content_dtype(P):
+    """a valid dtype for the ranks of a complete profile, chosen deterministically from the content: the same ranks may be stored
+    as int64 / int32 / int16 / int8 (ranks <= m <= 127 always fit) or float64 and every rule must give the same answer"""
+    import hashlib
+    h = int(hashlib.sha256(repr(P).encode()).hexdigest()[:4], 16) % 20
+    return [np.int64] * 8 + [np.int32] * 3 + [np.int16] * 3 + [np.int8] * 3 + [np.float64] * 3
+
+
+def profile_obj(P, dtype=None):
     from socialchoicekit.profile_utils import StrictCompleteProfile
     from harness.common import relayout
+    if dtype is None:
+        import hashlib
+        h = int(hashlib.sha256(repr(P).encode()).hexdigest()[:4], 16) % 20
+        dtype = content_dtype(P)[h]
     return StrictCompleteProfile.of(relayout(np.array(P, dtype=dtype)))
 
 
